@@ -2,7 +2,7 @@
    apply true true = the repaired step function (new shard groups clipped to their live neighbours; dropping the default
    policy clears the default name); apply false false = today's code, refuted in Refuted.v. *)
 From Coq Require Import ZArith List Bool.
-From OG Require Import C16.Model C16.Wf C16.Proofs C16.ProofsCmd C16.ProofsSg C16.ProofsRun C16.ProofsIds.
+From OG Require Import C16.Model C16.Wf C16.Proofs C16.ProofsCmd C16.ProofsSg C16.ProofsRun C16.ProofsIds C16.Order.
 Import ListNotations.
 Open Scope Z_scope.
 
@@ -75,6 +75,32 @@ Theorem C16_restore_transparent : forall clip cleardef l1 l2 c, representable (r
   run clip cleardef c (l1 ++ Restore :: l2) = run clip cleardef c (l1 ++ l2).
 Proof. exact restore_transparent. Qed.
 Print Assumptions C16_restore_transparent.
+
+(* ---- C15 on this command model: explicit map-iteration-order oracles (Order.v) ----
+   shard_type: the sharding type of a measurement; range_create: the unmodelled RANGE branch, abstract; an oracle returns some
+   element of a non-empty collection. Under uniform sharding one step gives the same state AND the same result for any two
+   valid oracles, for all 20 commands (only CreateShardGroup and CreateMeasurement consult the oracle). *)
+Theorem apply_order_independent : forall shard_type range_create clip cleardef c x o1 o2,
+  valid o1 -> valid o2 -> uniform_sharding shard_type c ->
+  applyO shard_type range_create clip cleardef o1 c x = applyO shard_type range_create clip cleardef o2 c x.
+Proof. exact apply_order_independent_lemma. Qed.
+Print Assumptions apply_order_independent.
+
+(* two replicas applying the same log, each under its own sequence of oracles, end in the same state and return the same
+   result for every command, provided uniform sharding holds in the states one of them goes through (today's code does not
+   maintain that invariant by itself: see the note in Order.v) *)
+Theorem C15_convergence : forall shard_type range_create clip cleardef xs os1 os2 c,
+  length os1 = length xs -> length os2 = length xs -> Forall valid os1 -> Forall valid os2 ->
+  uniform_along shard_type range_create clip cleardef os1 c xs ->
+  runO shard_type range_create clip cleardef os1 c xs = runO shard_type range_create clip cleardef os2 c xs.
+Proof. exact convergence_lemma. Qed.
+Print Assumptions C15_convergence.
+
+(* for the HASH-only catalogues of the correspondence the oracle step IS the step function compared with the real code *)
+Theorem C15_oracle_step_is_model_step : forall range_create clip cleardef o c x, valid o ->
+  applyO (fun _ => 0) range_create clip cleardef o c x = apply clip cleardef c x.
+Proof. intros. apply applyO_hash; [assumption | reflexivity]. Qed.
+Print Assumptions C15_oracle_step_is_model_step.
 
 (* non-vacuity: the environment hypotheses are satisfiable on a run that creates, alters, deletes and prunes *)
 Definition example_run : list cmd :=
